@@ -123,7 +123,7 @@ func genC33(seed uint64, tier string) *c33Scenario {
 	s := &c33Scenario{Sched: genSched(r, seed)}
 	maxSw, maxOps, maxOwn := 5, 12, 7
 	if tier == "thorough" {
-		maxSw, maxOps, maxOwn = 9, 24, 12
+		maxSw, maxOps, maxOwn = 9, 24, 10
 	}
 	gaps := []int64{0, 1, 1, 2, 3, 5, 10}
 	if r.Chance(1, 4) {
@@ -247,6 +247,14 @@ func gsStep(m gsModel, op *linOp) (gsModel, []any, bool) {
 	return m, nil, true
 }
 
+// gsInert: an update (or a close/shutdown observation) of a policy that has
+// been built but is neither current nor pending can never matter again: a
+// superseded or replaced policy does not come back.
+func gsInert(m gsModel, op *linOp) bool {
+	d := op.Data.(*gsOpData)
+	return (d.Kind == 1 || d.Kind == 3) && int8(d.Child) != m.Cur && int8(d.Child) != m.Pend
+}
+
 func gsMatch(em any, o *linObs) bool {
 	w, g := em.(gsFwd), o.Data.(gsFwd)
 	if w.Tag < 0 {
@@ -273,7 +281,7 @@ type c33H struct {
 }
 
 func (h *c33H) lin(ops []*linOp, accept func(gsModel) bool) linResult[gsModel] {
-	spec := linSpec[gsModel]{Init: gsModel{Cur: -1, Pend: -1}, Step: gsStep, Match: gsMatch, Accept: accept}
+	spec := linSpec[gsModel]{Init: gsModel{Cur: -1, Pend: -1}, Step: gsStep, Match: gsMatch, Accept: accept, Inert: gsInert}
 	return linCheck(spec, ops, h.obs, 200000)
 }
 
